@@ -85,11 +85,14 @@ def _binary_queries(e, tree, paths, nodes, fail):
                 fail("relative-depth-to-non-ancestor-does-not-raise-ValueError", node=str(p), relative_to=str(q), got=d)
 
 
-def make_harness(bases):
+def make_harness(bases_, prepare=None):
     def harness(e):
+        bases = bases_
         from pyoak.tree import Tree
 
         reset_all()
+        if prepare is not None:
+            bases, _extra = prepare(e)  # noqa: F841 -- freshly created classes (multiple inheritance, mixins)
         bno = e.choice(len(bases), "base")
         twins = e.flag("content_identical_twins")
         recipe = _twinify(bases[bno]) if twins else bases[bno]
@@ -271,7 +274,7 @@ def spec(tier: str, seed: int) -> Spec:
     chunk = 24
     fams = [Family(f"trees[{k}:{k + chunk}]", make_harness(bases[k : k + chunk]), variables="selectors: tree, twins, query kind, member; lazy: exact_type, check_ancestor") for k in range(0, len(bases), chunk)]
     return Spec(
-        families=fams + [Family("exotic-classes", make_harness(__import__("models.shapes", fromlist=["exotic_shapes"]).exotic_shapes()), variables="as the tree families; iterable / falsy / slotted / mixin classes, two tuple fields")] + [Family("same-named-classes-with-one-layout", same_layout_harness, variables="selectors: which of two same-named classes was used first, which is queried")],
+        families=fams + [Family(f"multiple-inheritance-first-{f_}", make_harness([], prepare=lambda e, _f=f_: __import__("checks.C05", fromlist=["_mi_prepare"])._mi_prepare(e, (_f,))), variables="as the tree families; freshly created classes with multiple inheritance / plain dataclass mixins / empty bodies") for f_ in ("MNamed", "MFunc")] + [Family("exotic-classes", make_harness(__import__("models.shapes", fromlist=["exotic_shapes"]).exotic_shapes()), variables="as the tree families; iterable / falsy / slotted / mixin classes, two tuple fields")] + [Family("same-named-classes-with-one-layout", same_layout_harness, variables="selectors: which of two same-named classes was used first, which is queried")],
         functions=FUNCTIONS,
         bounds={"trees": len(bases), "nodes_per_tree": "all shapes up to 5 nodes and every third shape with 6" if tier == "quick" else "all shapes up to 7 nodes", "depth": 3, "ancestor_class_sets": len(ANC_CLASSES)},
         rule="a case = (tree, twins or distinct leaves, query kind) with every node / ordered pair / member twin as argument; all non-trivial; distinct by that tuple",
